@@ -2,4 +2,4 @@
 Require Extraction.
 Require Import ExtrOcamlBasic.
 From TS Require Import Base.Res Model.Timestamp Model.Packet Model.PacketObs.
-Extraction "Extract/model.ml" run_packet run_packet_c12 run_af.
+Extraction "Extract/model.ml" run_packet run_packet_c12 run_af run_tsb run_tsu run_tsw run_crp run_crs.
